@@ -273,6 +273,14 @@ class MetaEphemeral(type):
         if id_ in MetaEphemeral.cache:
             return MetaEphemeral.cache[id_]
 
+        if id_ is not None:
+            # Unpickled in another process: reuse the latest ephemeral of that
+            # name defined here. The pickled generating function may carry a
+            # copy of the random generator (e.g. partial(random.randint, ...)).
+            for cls in reversed(list(MetaEphemeral.cache.values())):
+                if cls.name == name and cls.ret is ret:
+                    return cls
+
         if isinstance(func, types.LambdaType) and func.__name__ == '<lambda>':
             warnings.warn("Ephemeral {name} function cannot be "
                           "pickled because its generating function "
